@@ -61,6 +61,18 @@ SPECS = [
          ],
          raises={'*': {'ensures': ["raised('e1') or raised('e2')"]}},
          serves=['C06', 'C20']),
+    dict(id='S-Cdata-then-text',
+         # a CDATA section inserts values unescaped (character data); that choice ends with the section:
+         # text after it is escaped as everywhere else
+         text='A<![CDATA[ x${e1}< ]]><p>${e2}</p>B',
+         ensures=[
+             "trace('e1', 'e2')",
+             "quote_calls() == 1",
+             "S().startswith(S0() + 'A<![CDATA[ x')",
+             "S().endswith('< ]]><p>' + ('' if quoted(val(2), '\\0', '&#0;', None, None) is None else piece(quoted(val(2), '\\0', '&#0;', None, None))) + '</p>B')",
+         ],
+         raises={'*': {'ensures': ["raised('e1') or raised('e2') or ext_count() > 0 or translate_calls() > 0"]}},
+         serves=['C02', 'C06']),
     dict(id='S-Interp-lines',
          # line/column in the token table count '\n' only (as the tokenizer, Token.location and the
          # error formatter's source excerpt do): no other "line boundary" character starts a line
